@@ -193,7 +193,13 @@ func genC14(r *Rng, e *Emitter, n int) {
 				}
 				flat := r.flatOf(pts, stride)
 				runs = append(runs, runSx(stride, flat))
-				lines = append(lines, geom.NewLineStringFlat(l, flat))
+				ll := l
+				if stride == 3 && r.chance(1, 2) {
+					// lines of one call may be labelled differently (XYZ next to XYM): the mean is of X and Y
+					ll = []geom.Layout{geom.XYZ, geom.XYM}[r.Intn(2)]
+					e.tally("lines-of-mixed-layouts")
+				}
+				lines = append(lines, geom.NewLineStringFlat(ll, flat))
 				all = append(all, flat...)
 				ends = append(ends, len(all))
 			}
